@@ -28,6 +28,7 @@ fn main() {
         "merkle" => drivers::merkle::run(&a),
         "shard" => drivers::shard::run(&a),
         "atomicfs" => drivers::atomicfs::run(&a),
+        "shardmgr" => drivers::shardmgr::run(&a),
         "reconstruct" => drivers::reconstruct::run(&a),
         other => {
             eprintln!("unknown driver {other}");
